@@ -275,12 +275,13 @@ type simReq struct {
 }
 
 type simClientState struct {
-	peer     *simPeer
-	leftover []byte
-	reqs     []*simReq
-	closed   bool // harness closed it or the proxy did
-	quit     bool
-	invalid  bool
+	rejectedAtOpen bool // the whitelist turned the connection away
+	peer           *simPeer
+	leftover       []byte
+	reqs           []*simReq
+	closed         bool // harness closed it or the proxy did
+	quit           bool
+	invalid        bool
 }
 
 type simBackendState struct {
@@ -889,10 +890,11 @@ func (r *simRun) checkClients(after string) {
 			switch {
 			case q.failedBy == "err" && len(rp) > 0 && rp[0] != '-':
 				r.fail("C11: client %d, request %d %q: a node answered %q but the client received the non-error reply %q (%s)", ci, i, clip(encodeCmd(q.args)), clip(q.errLine), clip(rp), after)
-			case q.failedBy == "err" && len(q.keys) == 1 && !bytes.Equal(rp, q.errLine):
+			case q.failedBy == "err" && len(q.keys) == 1 && len(q.errLine) <= r.cfg.limit && !bytes.Equal(rp, q.errLine): // (an error line over the size limit is answered with the too-large error)
 				r.fail("C11: client %d, request %d %q: the node's error %q reached the client as %q (%s)", ci, i, clip(encodeCmd(q.args)), clip(q.errLine), clip(rp), after)
-			case q.failedBy == "timeout" && string(rp) != "-ERR proxy request timeout\r\n":
-				r.fail("C16: client %d, request %d %q timed out but was answered %q (%s)", ci, i, clip(encodeCmd(q.args)), clip(rp), after)
+			case q.failedBy == "timeout" && len(rp) > 0 && rp[0] != '-':
+				// (another failure may have completed it first - lost connection, unknown node -, so any error is fine)
+				r.fail("C16: client %d, request %d %q timed out but was answered with the non-error reply %q (%s)", ci, i, clip(encodeCmd(q.args)), clip(rp), after)
 			}
 			if !r.acceptable(c.reqs[i], rp) {
 				// a reply that answers another request of the same connection is an ordering defect (C01);
@@ -917,9 +919,16 @@ func (r *simRun) checkClients(after string) {
 				break
 			}
 		}
-		if !c.peer.vc.Opened() && !c.closed && !c.quit && !c.invalid && r.tags["request-cut-across-reads"] && r.crashed == "" {
-			// C08: a client that sent only well-formed requests (some of them cut across reads) and did not quit
-			r.fail("C08: the proxy closed client %d although it sent only well-formed requests, some of them split across reads (%s)", ci, after)
+		if !c.peer.vc.Opened() && !c.closed && !c.quit && !c.invalid && r.crashed == "" && !c.rejectedAtOpen {
+			// a client that sent only well-formed requests and did not quit must not be disconnected
+			switch {
+			case r.tags["expired"]:
+				r.fail("C16: the proxy closed client %d, which sent only well-formed requests and did not quit: after a timeout the connection must stay usable (%s)", ci, after)
+			case r.tags["request-cut-across-reads"]:
+				r.fail("C08: the proxy closed client %d although it sent only well-formed requests, some of them split across reads (%s)", ci, after)
+			default:
+				r.fail("C01: the proxy closed client %d, which sent only well-formed requests and did not quit: its outstanding requests get no reply (%s)", ci, after)
+			}
 		}
 		if c.peer.vc.Opened() {
 			// C09: the maximal prefix of completed requests must have been delivered
@@ -1254,6 +1263,7 @@ func (r *simRun) apply(ev string) (alive bool) {
 	case "E":
 		r.refreshBackends()
 		if r.cfg.timeout {
+			r.tags["expired"] = true
 			for j, b := range r.backends {
 				if b.closed {
 					continue
